@@ -489,6 +489,7 @@ func ruleMigrateRound2(c *Ctx) {
 		ruleChanDirMapping(c, "C13.14", migPkg)
 		ruleAsyncFlag(c, "C13.15")
 		rulePackagesNotComparedByName(c, "C13.17", migPkg)
+		ruleWireImportByExactPath(c, "C13.18")
 		ruleTypeIdentity(c, "C13.16", genPkg)
 	} else {
 		rulePackagelessRendererOnlyAsFallback(c, "C14.6")
@@ -503,6 +504,7 @@ func ruleMigrateRound2(c *Ctx) {
 		ruleLoadErrorsOfEveryPackage(c, "C14.18")
 		rulePatternImportWalkComplete(c, "C14.19")
 		rulePackagesNotComparedByName(c, "C14.20", migPkg)
+		ruleWireImportByExactPath(c, "C14.21")
 		ruleLoopsMakeProgress(c, "C14.12", migPkg)
 		ruleInspectVisitsEverything(c, "C14.11")
 	}
@@ -852,6 +854,17 @@ func ruleFieldInclusionFunction(c *Ctx, rule string, fn *ssa.Function, target ss
 		}
 		if dep {
 			ext = append(ext, id)
+		}
+	}
+	// selection by name is membership in the whole list: with no membership test among the atoms, an element of the list
+	// taken at a position (`requested[0] != field.Name()`) decides - names written in another order than the fields are
+	// declared then drop fields
+	if count["listed"] == 0 {
+		for _, id := range ids {
+			if class[id] == "other" && strings.Contains(id, "index(field:internal/migrate.WireStruct.Fields(") {
+				c.fail(rule, "transformStruct:field-selected-by-membership", L.pos(target.Pos()), "a listed field is selected by membership in the list of names, not by comparing it with the name at one position of the list", id)
+				return
+			}
 		}
 	}
 	if count["exported"] != 1 || count["star"] != 1 || count["listed"] != 1 || count["field"] != 0 || len(ext) != 1 {
